@@ -214,7 +214,9 @@ func c02fill(b *hatypes.Backend, f c02flags, eps []c02ep) {
 	b.Server.InitialWeight = f.iw
 	for _, e := range eps {
 		ep := b.AddEndpoint(e.ip, e.port, e.tref)
-		ep.Name = e.name
+		if e.name != "" {
+			ep.Name = e.name
+		}
 		ep.Enabled = e.enabled
 		ep.Weight = e.weight
 		ep.CookieValue = e.cookie
